@@ -934,6 +934,15 @@ func syncEngine(args []string, in *bufio.Scanner, out *bufio.Writer) {
 					ended := runLog.count(endedPred)
 					if s.cl.active.Load() == 0 && len(s.sm.VerifSyncedChan()) == 0 &&
 						(ended == runStarts || (ended == runStarts-1 && s.cl.parked.Load() >= 1)) {
+						// the channel is empty as soon as Run has RECEIVED the beacon; the assignment `lastRoundTime = Now()`
+						// comes after. A sentinel request ("already filled") goes through the same loop: once its log line
+						// is there, the body of the previous case has run — otherwise a clock advance right after `settle`
+						// could be the time Run records (seen under a load average of 100: a spurious "ignore").
+						mark := runLog.len()
+						s.sm.SendSyncRequest(context.Background(), 1, nil)
+						if runLog.waitFor(mark, func(l string) bool { return strings.Contains(l, "skipping_request") }, 5*time.Second) < 0 {
+							return "hang"
+						}
 						l, _ := s.top.Last(s.ctx)
 						return fmt.Sprintf("ok stored=%d head=%d ended=%d", s.base.n.Load(), l.Round, ended)
 					}
